@@ -748,12 +748,12 @@ class RandomStub:
 
 
 class NPProxy(types.ModuleType):
-    def __init__(self, random_stub=None):
+    def __init__(self, random_stub=None, float_pi=False):
         super().__init__("numpy_proxy")
         d = self.__dict__
         d["linalg"] = _LinalgProxy()
         d["random"] = random_stub if random_stub is not None else RandomStub()
-        d["pi"] = Sym(Q(T.PI))
+        d["pi"] = np.pi if float_pi else Sym(Q(T.PI))
         for nm in ("sqrt", "cos", "sin", "tan", "exp", "cosh", "sinh", "tanh", "arctan", "arcsinh", "arccosh",
                    "arccos", "arcsin", "log"):
             d[nm] = _unary(nm)
@@ -804,15 +804,19 @@ class MathProxy(types.ModuleType):
         return getattr(self._base, name)
 
 
-_NUMPY_FUNC_IDS = None
+FLOAT_PI_MODULES = {"strawberryfields.ops", "strawberryfields.compilers.compiler", "strawberryfields.program",
+                    "strawberryfields.tdm.program", "strawberryfields.compilers.tdm"}
 
 
 class Installed:
     """context manager replacing numpy (and math/cmath) in the namespaces of the given modules"""
 
     def __init__(self, modules, random_stub=None, extra=None):
+        # modules whose name is listed in FLOAT_PI_MODULES mix np.pi with sympy expressions: they keep the float
+        # (literals within 1e-10 of k*pi/24 are read back as exact multiples when used as angles)
         self.modules = modules
         self.proxy = NPProxy(random_stub)
+        self.proxy_fp = NPProxy(self.proxy.random, float_pi=True)
         self.mathp = MathProxy(_math)
         self.cmathp = MathProxy(_cmath)
         self.saved = []
@@ -855,10 +859,11 @@ class Installed:
         for fn_name in ("inv", "det", "norm", "solve", "matrix_power"):
             byid[id(getattr(np.linalg, fn_name))] = getattr(self.proxy.linalg, fn_name)
         for m in self.modules:
+            fp = m.__name__ in FLOAT_PI_MODULES
             for k, v in list(vars(m).items()):
                 new = None
                 if v is np:
-                    new = self.proxy
+                    new = self.proxy_fp if fp else self.proxy
                 elif v is _math:
                     new = self.mathp
                 elif v is _cmath:
@@ -867,7 +872,7 @@ class Installed:
                     new = self.proxy.random
                 elif v is np.linalg:
                     new = self.proxy.linalg
-                elif v is np.pi and k == "pi":
+                elif v is np.pi and k == "pi" and not fp:
                     new = self.proxy.pi
                 elif callable(v) and id(v) in byid and not isinstance(v, type):
                     new = byid[id(v)]
